@@ -13,6 +13,7 @@
    Observed (canonicalised by the harness):
      compile : accepted | overlap error | static (type) error | any other error
      invoke  : not run | value | error | panic          (5 repetitions agreed)
+     more    : second request on the same compiled runnables, with other source values
      stream  : not run | chunk values | error | panic   (chunks compared as a multiset: the
                                                          fan-in merge interleaves arbitrarily)
    Error messages are never compared. *)
@@ -39,7 +40,12 @@ Record ccase : Type := MkCase {
      modified") observed.  Overlapping keys are allowed here: the outcome then depends on Go's
      map iteration order, and must be the model's outcome for SOME order of the keys. *)
   r_unit : fmap;
-  o_unit : list (robs * bool)
+  o_unit : list (robs * bool);
+  (* further requests served by the SAME compiled runnables (one for Invoke, one for Stream), after the
+     first: the predecessors' values, the chunks they stream, what Invoke / Stream gave.  What a request
+     yields is a function of that request's inputs alone ("identically on every run"): each is compared
+     with the model exactly like the first. *)
+  c_more : list (list val * list (list val) * robs * sobs)
 }.
 
 (* the elaborated case: promoted field names spelled out (canonicalTargetPath / FieldByName) *)
@@ -254,6 +260,19 @@ Definition wf_good (c : ccase) : bool :=
       robs_match (c_env c) (run_invoke_s (c_env c) (c_T c) (c_decls c) (c_statics c) ckss (c_srcs c)) (o_invoke c)
       && sobs_match (c_env c) (run_stream_s (c_env c) (c_T c) (c_decls c) (c_statics c) ckss (c_chunks c)) (o_stream c)
       && clauses c
+      && forallb (fun rq => let '(srcs, chunks, oi, os) := rq in
+           forallb2 (fun d s => has_type (c_env c) (d_ty d) s) (c_decls c) srcs
+           && forallb2 (fun d cs => forallb (has_type (c_env c) (d_ty d)) cs) (c_decls c) chunks
+           && robs_match (c_env c) (run_invoke_s (c_env c) (c_T c) (c_decls c) (c_statics c) ckss srcs) oi
+           && sobs_match (c_env c) (run_stream_s (c_env c) (c_T c) (c_decls c) (c_statics c) ckss chunks) os
+           && (if has_plain (c_decls c) then true else
+               let targets := all_targets (c_decls c) ++ map fst (c_statics c) in
+               match oi with
+               | RVal v => get_clause (c_env c) (c_T c) (c_decls c) srcs v
+                           && static_clause (c_env c) (c_T c) (c_statics c) v
+                           && zero_clause (c_env c) (c_T c) targets v
+               | _ => true
+               end)) (c_more c)
       && (if has_plain (c_decls c) then negb (o_srcmod c) else
           let ri := run_invoke_w (c_env c) (c_T c) (c_decls c) (c_statics c) ckss (c_srcs c) in
           let rs := run_stream_w (c_env c) (c_T c) (c_decls c) (c_statics c) ckss (c_chunks c) in
